@@ -31,7 +31,18 @@ Juxta == {pre \o foo \o sep \o bar : pre \in {<<>>, <<113, COMMA, SP>>}, sep \in
 NbspArch == {foo \o <<SP, LBRACK>> \o amd64 \o <<SP, 105, 51, 56, 54>> \o w \o <<RBRACK>> : w \in {<<194, 160>>, <<226, 128, 131>>, <<194, 133>>}}
             \cup {foo \o <<SP, LBRACK, 105, 51, 56, 54>> \o w \o <<SP>> \o amd64 \o <<RBRACK>> : w \in {<<194, 160>>, <<226, 128, 131>>}}
             \cup {foo \o <<SP, LBRACK, BANG, 104, 117, 114, 100, HYPHEN, 97, 110, 121, 226, 128, 131, RBRACK, SP, LPAREN, GT, EQ, SP, 49, RPAREN>>}
-DepVecs == {[k |-> Kind, text |-> t] : t \in Texts \cup Degenerate \cup Juxta \cup NbspArch}
+\* architecture names with three and more dashes (dpkg's four-part tuples) in a list and as a qualifier; a name that
+\* begins with the same component twice; a substvar name holding CR CR LF (whatever these mean, they mean it twice)
+base == <<98, 97, 115, 101>>  eabi == <<101, 97, 98, 105>>
+ManyDash == {foo \o <<SP, LBRACK>> \o n \o <<RBRACK>> : n \in {base \o <<HYPHEN>> \o bGnu \o <<HYPHEN>> \o bLinux \o <<HYPHEN>> \o amd64,
+                                                                <<97, HYPHEN, 98, HYPHEN, 99, HYPHEN, 100, HYPHEN, 101>>,
+                                                                base \o <<HYPHEN>> \o base \o <<HYPHEN>> \o bLinux \o <<HYPHEN>> \o amd64,
+                                                                base \o <<HYPHEN>> \o base \o <<HYPHEN>> \o amd64,
+                                                                bGnu \o <<HYPHEN>> \o bGnu \o <<HYPHEN>> \o bLinux \o <<HYPHEN>> \o amd64}}
+            \cup {foo \o <<COLON>> \o eabi \o <<HYPHEN>> \o bGnu \o <<HYPHEN>> \o bLinux \o <<HYPHEN, 97, 114, 109>>,
+                  foo \o <<COLON>> \o base \o <<HYPHEN>> \o base \o <<HYPHEN>> \o amd64,
+                  <<DOLLAR, LBRACE, 97, CR, CR, LF, 98, RBRACE>>, <<DOLLAR, LBRACE, 97, CR, LF, 98, RBRACE>>, foo \o <<COMMA, SP, DOLLAR, LBRACE, 97, CR, CR, CR, LF, RBRACE>>}
+DepVecs == {[k |-> Kind, text |-> t] : t \in Texts \cup Degenerate \cup Juxta \cup NbspArch \cup ManyDash}
 
 \* ---- architecture names (C05) ------------------------------------------------
 bKf == <<107, 102, 114, 101, 101, 98, 115, 100>>  bMusl == <<109, 117, 115, 108>>
@@ -90,8 +101,14 @@ VerTexts == {<<49, 46, 48>>, <<49, 46, 48, 48>>, <<49, 46, 48, 45, 48>>, <<49, 4
             \cup {<<49, 46, 48, 46, 49>>, <<49, 97>>, <<49, 46, 97>>, <<49, 43>>, <<49, 46>>, <<49, 46, 48, 97>>, <<49, 46, 48, 43>>}
             \* digit runs of EQUAL length whose first differing digit and a later one point in opposite directions: 1.19 1.21 1.91 1.12
             \cup {<<49, 46, 49, 57>>, <<49, 46, 50, 49>>, <<49, 46, 57, 49>>, <<49, 46, 49, 50>>}
-BadN == {<<>>, <<97, 98, 99>>, <<49, 32, 48>>, <<45, 49, 58, 48>>, <<49, 46, 48, 95, 120>>}
+BadN == {<<>>, <<97, 98, 99>>, <<49, 32, 48>>, <<45, 49, 58, 48>>, <<49, 46, 48, 95, 120>>,
+         \* epochs that only another number base would read: 0x10:1.0  0b1:1.0  0o7:1.0  1_0:1.0
+         <<48, 120, 49, 48, 58, 49, 46, 48>>, <<48, 98, 49, 58, 49, 46, 48>>, <<48, 111, 55, 58, 49, 46, 48>>, <<49, 95, 48, 58, 49, 46, 48>>}
+\* constraint numbers whose epoch is written with leading zeros (decimal: 010 is ten, 08 is eight), against epochs 8, 9, 10
+EpochN == {<<48, 49, 48, 58, 49, 46, 48>>, <<48, 56, 58, 49, 46, 48>>, <<48, 48, 57, 58, 49, 46, 48>>}
+EpochV == {<<56, 58, 49, 46, 48>>, <<57, 58, 49, 46, 48>>, <<49, 48, 58, 49, 46, 48>>}
 SatVecs == {[k |-> "sat", op |-> op, n |-> n, v |-> Classify(v).v] : op \in Ops, n \in VerTexts \cup BadN, v \in VerTexts}
+           \cup {[k |-> "sat", op |-> op, n |-> n, v |-> Classify(v).v] : op \in Ops, n \in EpochN \cup EpochV, v \in EpochV}
 
 ASSUME Emit(CASE Mode = "dep" -> SetToSeq(DepVecs)
               [] Mode = "arch" -> SetToSeq(ArchVecs)
